@@ -119,6 +119,9 @@ var pmtShapes = []pmtShape{
 	{name: "section before", ptr: 0, pre: []int{5}, streams: []esShape{{}}},
 	{name: "pointer, two sections before, stuffing", ptr: 2, pre: []int{4, 7}, pil: 2, streams: []esShape{{desc: []int{2, 2}}, {desc: []int{0}}}, stuff: 6},
 	{name: "trailing stuffing", ptr: 0, streams: []esShape{{}, {desc: []int{5}}}, stuff: 3},
+	// length fields that do not fit a byte
+	{name: "descriptor of 255 bytes, ES_info_length 262", ptr: 0, streams: []esShape{{desc: []int{255, 3}}, {}}},
+	{name: "program_info_length 300", ptr: 1, pil: 300, streams: []esShape{{desc: []int{2}}}},
 }
 
 func pmtOpaqueCtors(in *Interp) {
@@ -384,6 +387,13 @@ func (c *Checker) checkPMTShapes() {
 									bad = append(bad, fmt.Sprintf("stream %d descriptor %d body byte %d: %s", i, j, k, d))
 								}
 							}
+						}
+					case *SliceV:
+						// long bodies are not snapshotted: the window of the input itself
+						lo, ok1 := b.Lo.ConstInt()
+						ln, ok2 := b.Len.ConstInt()
+						if !ok1 || !ok2 || b.Obj.Name != name || b.Prefix != "" || int(lo) != wd.bodyAt || int(ln) != wd.bodyLen {
+							bad = append(bad, fmt.Sprintf("stream %d descriptor %d body is %s, reference %s[%d:+%d]", i, j, showVal(dc.Args[1]), name, wd.bodyAt, wd.bodyLen))
 						}
 					default:
 						bad = append(bad, fmt.Sprintf("stream %d descriptor %d body: %s", i, j, showVal(dc.Args[1])))
